@@ -146,6 +146,7 @@ type CancelEv struct {
 	Released   bool   `json:"released"`   // the blocked stream call returned within the wait
 	RelErr     bool   `json:"relerr"`     // ... with an error
 	RelEOF     bool   `json:"releof"`     // ... namely io.EOF: the handler was told the stream ended cleanly
+	LateSend   string `json:"latesend"`   // idleAfterSend: what a small Send issued after the context ended returned ("" not tried, "error", "nil")
 	Ms         int64  `json:"ms"`
 	Crash      string `json:"crash"`
 }
@@ -311,6 +312,11 @@ func runCancelCase(c CancelCase) (ev CancelEv) {
 		position()
 		select {
 		case <-ctx.Done():
+			if c.Point == "idleAfterSend" && md.IsStreamingServer() {
+				// the call is over for the client: a reply sent now (a small one, that fits any buffer) must not be
+				// reported as delivered
+				released <- ss.SendMsg(repMsg(c.ID, 2, 3))
+			}
 		case <-time.After(cancelWait + 2*time.Second):
 		}
 		return nil
@@ -482,6 +488,16 @@ func runCancelCase(c CancelCase) (ev CancelEv) {
 			ev.RelErr = err != nil
 			ev.RelEOF = err == io.EOF
 		case <-time.After(cancelWait):
+		}
+	}
+	if c.Point == "idleAfterSend" && ev.CtxDone {
+		select {
+		case err := <-released:
+			ev.LateSend = "nil"
+			if err != nil {
+				ev.LateSend = "error"
+			}
+		case <-time.After(2 * time.Second):
 		}
 	}
 	ev.Ms = time.Since(t0).Milliseconds()
